@@ -62,6 +62,16 @@ package httpgen
 //@   loop 2 invariant forall j int :: 0 <= j && j < _i2 ==> spec.Rule_timestampFormat(msg.Fields[j])
 
 //@ func (g *Generator) generateBytesEncodingFile(file *protogen.File) (err error)
+//@   modifies *
+// the imports of the file are used, and what is used is imported (C13)
+//@   ensures base64_import_iff_used: (count("P:encoding/base64") > old(count("P:encoding/base64"))) <==> (count("P:base64.") > old(count("P:base64.")))
+//@   ensures hex_import_iff_used: (count("P:encoding/hex") > old(count("P:encoding/hex"))) <==> (count("P:hex.") > old(count("P:hex.")))
+//@   loop 1 invariant (count("P:encoding/base64") > old(count("P:encoding/base64"))) <==> (exists k int, j int :: 0 <= k && k < len(contexts) && 0 <= j && j < len(contexts[k].BytesFields) && spec.codedBytes(contexts[k].BytesFields[j].Encoding))
+//@   loop 1 invariant (count("P:encoding/hex") > old(count("P:encoding/hex"))) <==> (exists k int, j int :: 0 <= k && k < len(contexts) && 0 <= j && j < len(contexts[k].BytesFields) && contexts[k].BytesFields[j].Encoding == sebufhttp.BytesEncoding_BYTES_ENCODING_HEX)
+//@   loop 1 invariant forall k int :: 0 <= k && k < len(contexts) ==> contexts[k] != nil
+//@   loop 1 invariant (count("P:base64.") > old(count("P:base64."))) <==> (exists k int, j int :: 0 <= k && k < _i1 && 0 <= j && j < len(contexts[k].BytesFields) && spec.codedBytes(contexts[k].BytesFields[j].Encoding))
+//@   loop 1 invariant (count("P:hex.") > old(count("P:hex."))) <==> (exists k int, j int :: 0 <= k && k < _i1 && 0 <= j && j < len(contexts[k].BytesFields) && contexts[k].BytesFields[j].Encoding == sebufhttp.BytesEncoding_BYTES_ENCODING_HEX)
+//@   loop 1 invariant count("P:hex.") >= old(count("P:hex.")) && count("P:base64.") >= old(count("P:base64."))
 //@   ensures err == nil ==> spec.AllOK_bytes(file.Messages)
 
 //@ func hasFlattenFields(message *protogen.Message) (r bool)
@@ -279,6 +289,23 @@ package httpgen
 //@ func collectBytesEncodingMessages(messages []*protogen.Message, contexts *[]*BytesEncodingContext)
 //@   modifies contexts
 //@   decreases spec.depth(messages)
+// every collected context has a field to convert, and only such fields (C13: the file's imports are used)
+//@   ensures contexts_coded: (forall k int :: 0 <= k && k < len(old(*contexts)) ==> old(*contexts)[k] != nil && len(old(*contexts)[k].BytesFields) > 0 && (forall j int :: 0 <= j && j < len(old(*contexts)[k].BytesFields) ==> old(*contexts)[k].BytesFields[j] != nil && spec.codedBytes(old(*contexts)[k].BytesFields[j].Encoding))) ==> (forall k int :: 0 <= k && k < len((*contexts)) ==> (*contexts)[k] != nil && len((*contexts)[k].BytesFields) > 0 && (forall j int :: 0 <= j && j < len((*contexts)[k].BytesFields) ==> (*contexts)[k].BytesFields[j] != nil && spec.codedBytes((*contexts)[k].BytesFields[j].Encoding)))
+//@   loop 1 invariant (forall k int :: 0 <= k && k < len(old(*contexts)) ==> old(*contexts)[k] != nil && len(old(*contexts)[k].BytesFields) > 0 && (forall j int :: 0 <= j && j < len(old(*contexts)[k].BytesFields) ==> old(*contexts)[k].BytesFields[j] != nil && spec.codedBytes(old(*contexts)[k].BytesFields[j].Encoding))) ==> (forall k int :: 0 <= k && k < len((*contexts)) ==> (*contexts)[k] != nil && len((*contexts)[k].BytesFields) > 0 && (forall j int :: 0 <= j && j < len((*contexts)[k].BytesFields) ==> (*contexts)[k].BytesFields[j] != nil && spec.codedBytes((*contexts)[k].BytesFields[j].Encoding)))
+
+//@ func hasBytesEncodingFields(message *protogen.Message) (r bool)
+//@   pure
+//@   ensures r == spec.hasBytesCodecField(message)
+//@   loop 1 invariant forall k int :: 0 <= k && k < _i1 ==> !spec.needsBytesCodec(message.Fields[k])
+
+//@ func getBytesEncodingFields(message *protogen.Message) (r []*BytesEncodingFieldInfo)
+//@   ensures coded_only: forall j int :: 0 <= j && j < len(r) ==> r[j] != nil && spec.codedBytes(r[j].Encoding)
+//@   ensures nonempty: spec.hasBytesCodecField(message) ==> len(r) > 0
+//@   loop 1 invariant forall j int :: 0 <= j && j < len(fields) ==> fields[j] != nil && spec.codedBytes(fields[j].Encoding)
+//@   loop 1 invariant (exists k int :: 0 <= k && k < _i1 && spec.needsBytesCodec(message.Fields[k])) ==> len(fields) > 0
+
+//@ func collectBytesEncodingContext(file *protogen.File) (r []*BytesEncodingContext)
+//@   ensures contexts_coded: (forall k int :: 0 <= k && k < len(r) ==> r[k] != nil && len(r[k].BytesFields) > 0 && (forall j int :: 0 <= j && j < len(r[k].BytesFields) ==> r[k].BytesFields[j] != nil && spec.codedBytes(r[k].BytesFields[j].Encoding)))
 
 //@ func collectEmptyBehaviorMessages(messages []*protogen.Message, contexts *[]*EmptyBehaviorContext)
 //@   modifies contexts
@@ -333,3 +360,45 @@ package httpgen
 //@   modifies *
 //@   ensures uses_time: len(ctx.TimestampFields) > 0 && (forall j int :: 0 <= j && j < len(ctx.TimestampFields) ==> ctx.TimestampFields[j] != nil && spec.convertedTs(ctx.TimestampFields[j].Format)) ==> count("P:time.") > old(count("P:time."))
 //@   loop 2 invariant count("P:time.") >= old(count("P:time.")) && ((forall j int :: 0 <= j && j < len(ctx.TimestampFields) ==> ctx.TimestampFields[j] != nil && spec.convertedTs(ctx.TimestampFields[j].Format)) && _i2 > 0 ==> count("P:time.") > old(count("P:time.")))
+
+// ---- the bytes_encoding codec file imports encoding/base64 and encoding/hex exactly when an emitted line uses them (C13) ----
+//@ func (g *Generator) generateBytesFieldMarshal(gf *protogen.GeneratedFile, fieldInfo *BytesEncodingFieldInfo)
+//@   modifies *
+//@   ensures hex_iff: (count("P:hex.") > old(count("P:hex."))) <==> fieldInfo.Encoding == sebufhttp.BytesEncoding_BYTES_ENCODING_HEX
+//@   ensures base64_only_coded: count("P:base64.") > old(count("P:base64.")) ==> spec.codedBytes(fieldInfo.Encoding)
+//@   ensures monotone: count("P:hex.") >= old(count("P:hex.")) && count("P:base64.") >= old(count("P:base64."))
+
+//@ func (g *Generator) generateBytesFieldUnmarshal(gf *protogen.GeneratedFile, fieldInfo *BytesEncodingFieldInfo)
+//@   modifies *
+//@   ensures hex_iff: (count("P:hex.") > old(count("P:hex."))) <==> fieldInfo.Encoding == sebufhttp.BytesEncoding_BYTES_ENCODING_HEX
+//@   ensures base64_iff: (count("P:base64.") > old(count("P:base64."))) <==> spec.codedBytes(fieldInfo.Encoding)
+//@   ensures monotone: count("P:hex.") >= old(count("P:hex.")) && count("P:base64.") >= old(count("P:base64."))
+
+//@ func (g *Generator) generateBytesMarshalJSON(gf *protogen.GeneratedFile, ctx *BytesEncodingContext)
+//@   requires ctx != nil
+//@   modifies *
+//@   ensures hex_iff: (count("P:hex.") > old(count("P:hex."))) <==> (exists j int :: 0 <= j && j < len(ctx.BytesFields) && ctx.BytesFields[j].Encoding == sebufhttp.BytesEncoding_BYTES_ENCODING_HEX)
+//@   ensures base64_only_coded: count("P:base64.") > old(count("P:base64.")) ==> (exists j int :: 0 <= j && j < len(ctx.BytesFields) && spec.codedBytes(ctx.BytesFields[j].Encoding))
+//@   ensures monotone: count("P:hex.") >= old(count("P:hex.")) && count("P:base64.") >= old(count("P:base64."))
+//@   loop 2 invariant count("P:hex.") >= old(count("P:hex.")) && count("P:base64.") >= old(count("P:base64."))
+//@   loop 2 invariant (count("P:hex.") > old(count("P:hex."))) <==> (exists j int :: 0 <= j && j < _i2 && ctx.BytesFields[j].Encoding == sebufhttp.BytesEncoding_BYTES_ENCODING_HEX)
+//@   loop 2 invariant count("P:base64.") > old(count("P:base64.")) ==> (exists j int :: 0 <= j && j < _i2 && spec.codedBytes(ctx.BytesFields[j].Encoding))
+
+//@ func (g *Generator) generateBytesUnmarshalJSON(gf *protogen.GeneratedFile, ctx *BytesEncodingContext)
+//@   requires ctx != nil
+//@   modifies *
+//@   ensures hex_iff: (count("P:hex.") > old(count("P:hex."))) <==> (exists j int :: 0 <= j && j < len(ctx.BytesFields) && ctx.BytesFields[j].Encoding == sebufhttp.BytesEncoding_BYTES_ENCODING_HEX)
+//@   ensures base64_iff: (count("P:base64.") > old(count("P:base64."))) <==> (exists j int :: 0 <= j && j < len(ctx.BytesFields) && spec.codedBytes(ctx.BytesFields[j].Encoding))
+//@   ensures monotone: count("P:hex.") >= old(count("P:hex.")) && count("P:base64.") >= old(count("P:base64."))
+//@   loop 2 invariant count("P:hex.") >= old(count("P:hex.")) && count("P:base64.") >= old(count("P:base64."))
+//@   loop 2 invariant (count("P:hex.") > old(count("P:hex."))) <==> (exists j int :: 0 <= j && j < _i2 && ctx.BytesFields[j].Encoding == sebufhttp.BytesEncoding_BYTES_ENCODING_HEX)
+//@   loop 2 invariant (count("P:base64.") > old(count("P:base64."))) <==> (exists j int :: 0 <= j && j < _i2 && spec.codedBytes(ctx.BytesFields[j].Encoding))
+
+//@ func (g *Generator) writeBytesEncodingImports(gf *protogen.GeneratedFile, contexts []*BytesEncodingContext)
+//@   modifies *
+//@   ensures base64_import: (count("P:encoding/base64") > old(count("P:encoding/base64"))) <==> (exists k int, j int :: 0 <= k && k < len(contexts) && 0 <= j && j < len(contexts[k].BytesFields) && spec.codedBytes(contexts[k].BytesFields[j].Encoding))
+//@   ensures hex_import: (count("P:encoding/hex") > old(count("P:encoding/hex"))) <==> (exists k int, j int :: 0 <= k && k < len(contexts) && 0 <= j && j < len(contexts[k].BytesFields) && contexts[k].BytesFields[j].Encoding == sebufhttp.BytesEncoding_BYTES_ENCODING_HEX)
+//@   loop 1 invariant needsBase64 <==> (exists k int, j int :: 0 <= k && k < _i1 && 0 <= j && j < len(contexts[k].BytesFields) && spec.codedBytes(contexts[k].BytesFields[j].Encoding))
+//@   loop 1 invariant needsHex <==> (exists k int, j int :: 0 <= k && k < _i1 && 0 <= j && j < len(contexts[k].BytesFields) && contexts[k].BytesFields[j].Encoding == sebufhttp.BytesEncoding_BYTES_ENCODING_HEX)
+//@   loop 2 invariant needsBase64 <==> ((exists k int, j int :: 0 <= k && k < _i1 && 0 <= j && j < len(contexts[k].BytesFields) && spec.codedBytes(contexts[k].BytesFields[j].Encoding)) || (exists j int :: 0 <= j && j < _i2 && spec.codedBytes(ctx.BytesFields[j].Encoding)))
+//@   loop 2 invariant needsHex <==> ((exists k int, j int :: 0 <= k && k < _i1 && 0 <= j && j < len(contexts[k].BytesFields) && contexts[k].BytesFields[j].Encoding == sebufhttp.BytesEncoding_BYTES_ENCODING_HEX) || (exists j int :: 0 <= j && j < _i2 && ctx.BytesFields[j].Encoding == sebufhttp.BytesEncoding_BYTES_ENCODING_HEX))
